@@ -1,7 +1,362 @@
 import M3d.Basic
-/-! Line-protocol handler for C18. Core-only. (stub) -/
-namespace M3d.Drv.C18
+import M3d.Model.Surface
+import M3d.Model.Param
+import Std.Data.HashMap
+/-!
+Line-protocol handler for C18.  Core-only.
 
-def handleAll (ws : List String) : Option String := none
+    grow   H h S maxSize A maxArea T n tris AR n areas PN n ints PO n ints
+           → the charts of the Lean state machine (`M3d.Param.planeGraphs` with `prioPolicy`, areas
+             at `Float`), compared for equality with the real `nextMeshPlaneGraphs` driven by the same
+             integer priorities (validates the model the theorems are about)
+    charts d I n tris O k (n tris)*   → `ok` iff the real charts partition the input and each is a
+             disc (`isDisc`: Surface's proved deciders + Euler characteristic + connectivity)
+    bseq   T n tris                  → `boundarySequence` (rotated to its smallest id) or `panic`
+    system T.. B.. W..               → the rows of the Floater system, exact rationals
+    param  m L lo H hi TOL t T.. B.. W.. X n (id x y)*
+           → `resid=ok` (weighted-mean residual ≤ tol: validation of the iterative solver) and
+             `uv=ok` (`uvValid` in exact arithmetic on the float outputs)
+    atlas  RES r T n (6 rationals)*  → `uv=ok` iff `uvValid 0 1`
+    pack   B b R .. N k (A area M m (6 rationals)*)*  → the packed UVs (exact) or `panic`
+    mapfn  E|N Q p WANT w R q U uv-triangle P 3d-triangle → `ok` iff the returned triangle
+           contains `p` and `q` is the barycentric interpolation (= `WANT`); exact for `E`,
+           within 1e-7 for `N` (float arithmetic: validation)
+-/
+namespace M3d.Drv.C18
+open M3d M3d.Surface M3d.Param
+
+abbrev Toks := List String
+
+def parseTri (s : String) : Option Tri :=
+  match (s.splitOn ",").mapM (·.toNat?) with
+  | some [a, b, c] => some (a, b, c)
+  | _ => none
+
+/-- `<marker> <n> <n items>` -/
+def takeN (marker : String) (ws : Toks) (per : Nat := 1) : Option (Toks × Toks) :=
+  match ws with
+  | m :: n :: rest =>
+    if m ≠ marker then none else
+    match n.toNat? with
+    | some k => if rest.length < k * per then none else some (rest.take (k * per), rest.drop (k * per))
+    | none => none
+  | _ => none
+
+def takeSoup (marker : String) (ws : Toks) : Option (List Tri × Toks) := do
+  let (ts, r) ← takeN marker ws
+  let ts ← ts.mapM parseTri
+  some (ts, r)
+
+/-- `<n> tris` without marker -/
+def takeSoup0 (ws : Toks) : Option (List Tri × Toks) :=
+  match ws with
+  | n :: rest =>
+    match n.toNat? with
+    | some k => if rest.length < k then none else (rest.take k).mapM parseTri |>.map fun ts => (ts, rest.drop k)
+    | none => none
+  | _ => none
+
+def triKey (nv : Nat) (t : Tri) : Nat := (t.1 * nv + t.2.1) * nv + t.2.2
+
+def verdict (checks : List (String × Bool)) : String :=
+  let bad := checks.filter (fun c => !c.2)
+  if bad.isEmpty then "ok" else "FAIL " ++ " ".intercalate (bad.map fun c => c.1)
+
+/-! ### grow -/
+
+def handleGrow (ws : Toks) : Option String := do
+  match ws with
+  | "H" :: h :: "S" :: s :: "A" :: a :: rest =>
+    let maxSize ← s.toNat?
+    let maxArea : Option Float ← if a == "-" then some none else (floatOfHex a).map some
+    let (ts, r) ← takeSoup "T" rest
+    let (ar, r) ← takeN "AR" r
+    let areas ← ar.mapM floatOfHex
+    let (pn, r) ← takeN "PN" r
+    let pn ← pn.mapM (·.toInt?)
+    let (po, _) ← takeN "PO" r
+    let po ← po.mapM (·.toInt?)
+    let n := ts.length
+    let nv := (vertsAll ts).foldl max 0 + 1
+    let idx : Std.HashMap Nat Nat := (ts.zipIdx).foldl (fun m (t, i) => m.insert (triKey nv t) i) {}
+    let pnA := pn.toArray
+    let poA := po.toArray
+    let arA := areas.toArray
+    let ix := fun (t : Tri) => (idx.get? (triKey nv t)).getD 0
+    let prio : Option Tri → Tri → Int := fun o t =>
+      match o with
+      | none => pnA[ix t]!
+      | some o => poA[ix o]! * (n : Int) + pnA[ix t]!
+    let area : Tri → Float := fun t => arA[ix t]!
+    let P := prioPolicy prio area maxSize maxArea
+    let charts := planeGraphs P (h == "1") ((n + 1) * (n + 1)) (n + 1) ts
+    let render := fun (c : List Tri) =>
+      ",".intercalate ((sortBy (fun a b => decide (a < b)) (c.map ix)).map toString)
+    some (" | ".intercalate (charts.map render))
+  | _ => none
+
+/-! ### charts -/
+
+partial def takeCharts : Nat → Toks → Option (List (List Tri))
+  | 0, _ => some []
+  | k + 1, ws => do
+    let (c, r) ← takeSoup0 ws
+    let cs ← takeCharts k r
+    some (c :: cs)
+
+def triLt (a b : Tri) : Bool :=
+  a.1 < b.1 || (a.1 == b.1 && (a.2.1 < b.2.1 || (a.2.1 == b.2.1 && a.2.2 < b.2.2)))
+
+def handleCharts (ws : Toks) : Option String := do
+  match ws with
+  | _desc :: rest =>
+    let (inp, r) ← takeSoup "I" rest
+    match r with
+    | "O" :: tok :: r2 =>
+      match tok.toNat? with
+      | none => some ("FAIL status=" ++ tok)
+      | some k =>
+        let cs ← takeCharts k r2
+        let all := sortBy triLt cs.flatten
+        let part := all == sortBy triLt inp
+        let discs := cs.zipIdx.map fun (c, i) => (s!"chart{i}-not-disc(n={c.length},chi={euler c})", isDisc c)
+        let nonEmpty := cs.zipIdx.map fun (c, i) => (s!"chart{i}-empty", !c.isEmpty)
+        some (verdict ([("not-a-partition", part)] ++ nonEmpty ++ discs))
+    | _ => none
+  | _ => none
+
+/-! ### bseq -/
+
+def handleBseq (ws : Toks) : Option String := do
+  let (ts, _) ← takeSoup "T" ws
+  let starts := (bdyEdgesFind ts).map (·.1)
+  match starts with
+  | [] => some "panic"
+  | s :: r =>
+    let start := r.foldl min s
+    match boundarySeq ts start with
+    | none => some "panic"
+    | some l => some (s!"{l.length} " ++ " ".intercalate (l.map toString))
+
+/-! ### Floater system -/
+
+structure Setup where
+  ts : List Tri
+  bpos : Array (Option (V2 Rat))
+  w : Std.HashMap Nat Rat
+  nv : Nat
+
+def Setup.bp (s : Setup) (v : Nat) : Option (V2 Rat) := (s.bpos[v]?).join
+def Setup.wt (s : Setup) (c n : Nat) : Option Rat := s.w.get? (c * s.nv + n)
+
+partial def parseB (ws : Toks) (acc : Array (Option (V2 Rat))) : Option (Array (Option (V2 Rat))) :=
+  match ws with
+  | [] => some acc
+  | i :: x :: y :: r => do
+    let i ← i.toNat?
+    let x ← parseRat x
+    let y ← parseRat y
+    if i < acc.size then parseB r (acc.set! i (some ⟨x, y⟩)) else none
+  | _ => none
+
+partial def parseW (nv : Nat) (ws : Toks) (acc : Std.HashMap Nat Rat) : Option (Std.HashMap Nat Rat) :=
+  match ws with
+  | [] => some acc
+  | c :: n :: w :: r => do
+    let c ← c.toNat?
+    let n ← n.toNat?
+    let w ← parseRat w
+    parseW nv r (acc.insert (c * nv + n) w)
+  | _ => none
+
+def parseSetup (ws : Toks) : Option (Setup × Toks) := do
+  let (ts, r) ← takeSoup "T" ws
+  let nv := (vertsAll ts).foldl max 0 + 1
+  let (b, r) ← takeN "B" r 3
+  let bpos ← parseB b (Array.replicate nv none)
+  let (w, r) ← takeN "W" r 3
+  let w ← parseW nv w {}
+  some ({ ts, bpos, w, nv }, r)
+
+def handleSystem (ws : Toks) : Option String := do
+  let (s, _) ← parseSetup ws
+  match floaterSystem s.ts s.bp s.wt with
+  | none => some "panic"
+  | some rows =>
+    let rows := sortBy (fun a b => decide (a.1 < b.1)) rows
+    let render := fun (cr : Nat × Row Rat) =>
+      let offs := sortBy (fun (a b : Nat × Rat) => decide (a.1 < b.1)) cr.2.offs
+      s!"{cr.1} {showRat cr.2.diag}" ++ String.join (offs.map fun jw => s!" {jw.1}:{showRat jw.2}") ++
+        s!" ; {showRat cr.2.bias.x} {showRat cr.2.bias.y}"
+    some (" | ".intercalate (rows.map render))
+
+def absR (q : Rat) : Rat := if q < 0 then -q else q
+
+partial def parseX (ws : Toks) (acc : Array (V2 Rat)) : Option (Array (V2 Rat)) :=
+  match ws with
+  | [] => some acc
+  | i :: x :: y :: r => do
+    let i ← i.toNat?
+    let x ← parseRat x
+    let y ← parseRat y
+    if i < acc.size then parseX r (acc.set! i ⟨x, y⟩) else none
+  | _ => none
+
+def handleParam (ws : Toks) : Option String := do
+  match ws with
+  | mode :: "L" :: lo :: "H" :: hi :: "TOL" :: tol :: rest =>
+    let lo ← parseRat lo
+    let hi ← parseRat hi
+    let tol ← parseRat tol
+    let (s, r) ← parseSetup rest
+    match r with
+    | "X" :: n :: xs =>
+      match n.toNat? with
+      | none => some s!"resid=FAIL:{n} uv=FAIL:{n}"
+      | some k =>
+        if xs.length ≠ 3 * k then none else
+        let pos ← parseX xs (Array.replicate s.nv ⟨0, 0⟩)
+        let px := fun (v : Nat) => (pos[v]?).getD ⟨0, 0⟩
+        -- residual of the weighted-mean equation at every interior vertex
+        let interior := (verts s.ts).filter fun v => (s.bp v).isNone
+        let resid : Option Rat := interior.foldl (fun acc c =>
+          match acc, nbList s.ts s.bp s.wt c with
+          | some m, some nbs =>
+            let lx := nbs.map fun nb => match nb with
+              | .var j w => (w, (px j).x)
+              | .fixed p w => (w, p.x)
+            let ly := nbs.map fun nb => match nb with
+              | .var j w => (w, (px j).y)
+              | .fixed p w => (w, p.y)
+            if wtot lx == 0 then none else
+            let ex := absR ((px c).x - weightedMean lx)
+            let ey := absR ((px c).y - weightedMean ly)
+            some (max m (max ex ey))
+          | _, _ => none) (some 0)
+        let residOK := match resid with
+          | some m => decide (m ≤ tol)
+          | none => false
+        -- boundary vertices keep their prescribed positions
+        let bfix := (verts s.ts).all fun v => match s.bp v with
+          | some p => px v == p
+          | none => true
+        let uvs := s.ts.map fun t => (⟨px t.1, px t.2.1, px t.2.2⟩ : Tri2 Rat)
+        let uvOK := uvValid lo hi uvs
+        let rs := if mode == "stretch" then "resid=ok" else
+          (if residOK && bfix then "resid=ok" else s!"resid=FAIL:{match resid with | some m => showRat m | none => "none"}")
+        some (rs ++ " " ++ (if uvOK then "uv=ok" else "uv=FAIL"))
+    | _ => none
+  | _ => none
+
+/-! ### atlas / pack / mapfn -/
+
+partial def parseTri2s (ws : Toks) (acc : Array (Tri2 Rat)) : Option (Array (Tri2 Rat)) :=
+  match ws with
+  | [] => some acc
+  | a :: b :: c :: d :: e :: f :: r => do
+    let v ← [a, b, c, d, e, f].mapM parseRat
+    match v with
+    | [a, b, c, d, e, f] => parseTri2s r (acc.push ⟨⟨a, b⟩, ⟨c, d⟩, ⟨e, f⟩⟩)
+    | _ => none
+  | _ => none
+
+def handleAtlas (ws : Toks) : Option String := do
+  match ws with
+  | "RES" :: _ :: "T" :: n :: rest =>
+    match n.toNat? with
+    | none => some ("uv=FAIL:" ++ n)
+    | some k =>
+      if rest.length ≠ 6 * k then none else
+      let ts ← parseTri2s rest #[]
+      some (if uvValid (0 : Rat) 1 ts.toList then "uv=ok" else "uv=FAIL")
+  | _ => none
+
+structure Chart where
+  area : Rat
+  tris : List (Tri2 Rat)
+
+partial def parseChartsP : Nat → Toks → Option (List Chart)
+  | 0, _ => some []
+  | k + 1, ws =>
+    match ws with
+    | "A" :: a :: "M" :: m :: rest => do
+      let a ← parseRat a
+      let m ← m.toNat?
+      if rest.length < 6 * m then none else
+      let ts ← parseTri2s (rest.take (6 * m)) #[]
+      let cs ← parseChartsP k (rest.drop (6 * m))
+      some (⟨a, ts.toList⟩ :: cs)
+    | _ => none
+
+def handlePack (ws : Toks) : Option String := do
+  match ws with
+  | "B" :: b :: "R" :: lx :: ly :: hx :: hy :: "N" :: k :: rest =>
+    let border ← parseRat b
+    let lx ← parseRat lx
+    let ly ← parseRat ly
+    let hx ← parseRat hx
+    let hy ← parseRat hy
+    let k ← k.toNat?
+    let cs ← parseChartsP k rest
+    let csA := cs.toArray
+    let ps : List (Nat × Rat) := cs.zipIdx.map fun (c, i) => (i, c.area)
+    let tree := buildQT (ps.length + 1) (sortDesc ps)
+    let cellsOf := joined border ⟨⟨lx, ly⟩, ⟨hx, hy⟩⟩ tree
+    -- every chart: its target rectangle
+    let out : Option (List String) := (List.range k).mapM fun i =>
+      match cellsOf.find? (fun c => c.1 == i), csA[i]? with
+      | some (_, cell), some ch =>
+        if cell.hi.x < cell.lo.x || cell.hi.y < cell.lo.y then none else
+        match bounds2 (ch.tris.flatMap fun t => [t.a, t.b, t.c]) with
+        | none => some ""
+        | some old =>
+          some (" ".intercalate (ch.tris.map fun t =>
+            " ".intercalate ([t.a, t.b, t.c].map fun p =>
+              let q := toBounds old cell p
+              s!"{showRat q.x} {showRat q.y}")))
+      | _, _ => none
+    match out with
+    | none => some "panic"
+    | some ls => some (" ".intercalate ls)
+  | _ => none
+
+def handleMapFn (ws : Toks) : Option String := do
+  match ws with
+  | mode :: "Q" :: px :: py :: "WANT" :: wx :: wy :: wz :: "R" :: rest =>
+    let p : V2 Rat := ⟨← parseRat px, ← parseRat py⟩
+    let want : V3 Rat := ⟨← parseRat wx, ← parseRat wy, ← parseRat wz⟩
+    match rest with
+    | [qx, qy, qz, "U", a, b, c, d, e, f, "P", x0, y0, z0, x1, y1, z1, x2, y2, z2] =>
+      let q : V3 Rat := ⟨← parseRat qx, ← parseRat qy, ← parseRat qz⟩
+      let u : Tri2 Rat := ⟨⟨← parseRat a, ← parseRat b⟩, ⟨← parseRat c, ← parseRat d⟩, ⟨← parseRat e, ← parseRat f⟩⟩
+      let t : Tri3 Rat := ⟨⟨← parseRat x0, ← parseRat y0, ← parseRat z0⟩, ⟨← parseRat x1, ← parseRat y1, ← parseRat z1⟩,
+        ⟨← parseRat x2, ← parseRat y2, ← parseRat z2⟩⟩
+      if u.orient == 0 then some "FAIL degenerate-uv-triangle" else
+      let w := bary2 u p
+      let r := atBary3 t w
+      let eps : Rat := if mode == "E" then 0 else (1 : Rat) / 10000000
+      let scale : Rat := 1 + absR want.x + absR want.y + absR want.z
+      let close := fun (a b : V3 Rat) =>
+        decide (absR (a.x - b.x) ≤ eps * scale) && decide (absR (a.y - b.y) ≤ eps * scale) && decide (absR (a.z - b.z) ≤ eps * scale)
+      some (verdict [
+        ("returned-triangle-does-not-contain-query", decide (-eps ≤ w.1) && decide (-eps ≤ w.2.1) && decide (-eps ≤ w.2.2)),
+        ("point-is-not-barycentric-interpolation", close q r),
+        ("point-differs-from-source-triangle-point", close q want)])
+    | [status] => some ("FAIL status=" ++ status)
+    | _ => none
+  | [_, status] => some ("FAIL status=" ++ status)
+  | _ => none
+
+def handleAll (ws : List String) : Option String :=
+  match ws with
+  | "grow" :: r => handleGrow r
+  | "charts" :: r => handleCharts r
+  | "bseq" :: r => handleBseq r
+  | "system" :: r => handleSystem r
+  | "param" :: r => handleParam r
+  | "atlas" :: r => handleAtlas r
+  | "pack" :: r => handlePack r
+  | "mapfn" :: r => handleMapFn r
+  | _ => none
 
 end M3d.Drv.C18
